@@ -15,6 +15,7 @@ from typing import Dict, List, Optional, Set, Tuple
 from ..core import AnalysisError, call_name, dotted, is_self_attr, kwarg, walk_local
 from ..flow import PathWalker, conjuncts, dominating_atoms, block_of
 from .. import fields as F
+from . import shared
 
 CIRC = 'cirq.circuits.circuit.Circuit'
 ABS = 'cirq.circuits.circuit.AbstractCircuit'
@@ -345,6 +346,8 @@ def _lazy_fields(ci) -> Set[str]:
 
 def run(ctx):
     repo = ctx.repo
+    shared.reconsume_rule(ctx, 'C05.j', ['cirq-core/cirq/circuits/', 'cirq-core/cirq/ops/'], floor=2)
+    ctx.decided.append('C05.j a one-shot OP_TREE / Iterable argument is walked once: after it has been flattened into a local, the raw argument is not consumed again')
     ctx.decided += [
         'C05.a no path through any Circuit method leaves a summary cache stale (typestate with method summaries)',
         'C05.b _mutated() resets every lazily filled field',
